@@ -35,14 +35,39 @@ class Ctx:
     def pc(self):
         return [c if v else z3.Not(c) for c, v, _ in self.trace]
 
-    def assume(self, cond):
+    def assume(self, cond, heavy=False):
+        """`heavy`: a defining axiom that is expensive for the non-linear back ends and usually not needed because
+        cheaper consequences (hinted lemmas) are assumed next to it.  Queries are tried WITHOUT the heavy axioms first
+        (unsat from fewer assumptions is still unsat) and with them only if that does not settle the question."""
         cond = zbool(cond)
         self.trace.append((cond, True, True))
+        if heavy:
+            self.__dict__.setdefault("heavy", {})[cond.get_id()] = cond
+
+    def pc_light(self):
+        hv = self.__dict__.get("heavy", {})
+        return [c if v else z3.Not(c) for c, v, _ in self.trace if not (v and c.get_id() in hv and hv[c.get_id()].eq(c))]
 
     def feasible(self, *extra):
+        """Branch feasibility.  `unsat` is only ever concluded from a subset of the path condition (sound); when the
+        relevant part of the path condition is non-linear, the cheap check over the assumptions that mention only the
+        branch condition's own symbols is used and anything not refuted there counts as feasible (a spuriously explored
+        path costs time, not soundness: obligations are decided under the full path condition)."""
         self.nq += 1
-        rel, _ = solve.slice_for(self.pc(), list(extra))
-        r, _, _ = solve.check(rel + list(extra), timeout=self.qtimeout)
+        extra = list(extra)
+        pc = self.pc_light() if self.__dict__.get("heavy") else self.pc()
+        rel, _ = solve.slice_for(pc, extra)
+        if any(solve.is_nonlinear(a) for a in rel + extra):
+            gs = set()
+            for e in extra:
+                gs |= set(solve._syms(e))
+            sub = [a for a in rel if solve._syms(a) <= gs]
+            if not any(solve.is_nonlinear(a) for a in sub + extra):
+                r, _, _ = solve.check(sub + extra, timeout=self.qtimeout)
+                return "unsat" if r == "unsat" else "sat"
+            r, _, _ = solve.check(rel + extra, timeout=self.qtimeout)
+            return "unsat" if r == "unsat" else "sat"
+        r, _, _ = solve.check(rel + extra, timeout=self.qtimeout)
         return r
 
     def decide(self, cond):
@@ -538,8 +563,30 @@ class SAngle(Sym):
     """An angle represented by (cos, sin) with cos^2+sin^2=1.  `unit` ('deg'/'rad') only matters when
     a plain number is added.  `prov` records the Euler decomposition the angle came from."""
 
-    def __init__(self, c, s, unit="deg", prov=None):
+    def __init__(self, c, s, unit="deg", prov=None, v=None):
         self.c, self.s, self.unit, self.prov = c, s, unit, prov
+        self._v = v      # optional numeric value in DEGREES (z3 Real term) for code that does plain arithmetic on angles
+        self._vax = []   # axioms linking the value to the circle position: assumed lazily, on first numeric use
+
+    @property
+    def v(self):
+        if self._vax:
+            ax, self._vax[:] = list(self._vax), []
+            for a in ax:
+                ctx().assume(a)
+        return self._v
+
+    @v.setter
+    def v(self, val):
+        self._v = val
+
+    def _carry(self, other_v, *sources):
+        """propagate value and pending axioms without triggering them"""
+        self._v = other_v
+        for s_ in sources:
+            if isinstance(s_, SAngle):
+                self._vax = self._vax + [a for a in s_._vax if not any(a is b for b in self._vax)]
+        return self
 
     @staticmethod
     def fresh(name, unit="deg"):
@@ -550,10 +597,26 @@ class SAngle(Sym):
     @staticmethod
     def const(deg, unit="deg"):
         c, s = const_cos_sin(deg)
-        return SAngle(c, s, unit)
+        return SAngle(c, s, unit, v=z3.RealVal(str(Fraction(float(deg)))))
 
     def __neg__(self):
-        return SAngle(self.c, -self.s, self.unit)
+        return SAngle(self.c, -self.s, self.unit)._carry((-self._v if self._v is not None else None), self)
+
+    def __abs__(self):
+        if self.v is None:
+            raise Unsupported("abs() of an angle without numeric value")
+        return SNum(z3.If(self.v >= 0, self.v, -self.v))
+
+    def _numcmp(self, o, f):
+        if self.v is None or isinstance(o, SAngle) and o.v is None:
+            raise Unsupported("numeric comparison of an angle without numeric value")
+        ov = o.v if isinstance(o, SAngle) else zreal(o if self.unit == "deg" else math.degrees(float(o)))
+        return SBool(f(self.v, ov))
+
+    def __lt__(self, o): return self._numcmp(o, lambda a, b: a < b)
+    def __le__(self, o): return self._numcmp(o, lambda a, b: a <= b)
+    def __gt__(self, o): return self._numcmp(o, lambda a, b: a > b)
+    def __ge__(self, o): return self._numcmp(o, lambda a, b: a >= b)
 
     def __pos__(self):
         return self
@@ -572,7 +635,8 @@ class SAngle(Sym):
         o2 = self._other(o)
         if o2 is None:
             return NotImplemented
-        return SAngle(z3.simplify(self.c * o2.c - self.s * o2.s), z3.simplify(self.s * o2.c + self.c * o2.s), self.unit)
+        v = (self._v + o2._v) if (self._v is not None and o2._v is not None) else None
+        return SAngle(z3.simplify(self.c * o2.c - self.s * o2.s), z3.simplify(self.s * o2.c + self.c * o2.s), self.unit)._carry(v, self, o2)
 
     __radd__ = __add__
 
@@ -594,9 +658,9 @@ class SAngle(Sym):
             if float(o) == -1.0:
                 return -self
             if abs(float(o) - math.pi / 180) < 1e-15:
-                return SAngle(self.c, self.s, "rad")
+                return SAngle(self.c, self.s, "rad", self.prov)._carry(self._v, self)
             if abs(float(o) - 180 / math.pi) < 1e-12:
-                return SAngle(self.c, self.s, "deg")
+                return SAngle(self.c, self.s, "deg", self.prov)._carry(self._v, self)
         if _is_arr(o):
             return NotImplemented
         raise Unsupported("angle * %r" % (o,))
@@ -610,9 +674,9 @@ class SAngle(Sym):
 
     def cos(self): return SNum(self.c)
     def sin(self): return SNum(self.s)
-    def deg2rad(self): return SAngle(self.c, self.s, "rad", self.prov)
+    def deg2rad(self): return SAngle(self.c, self.s, "rad", self.prov)._carry(self._v, self)
     radians = deg2rad
-    def rad2deg(self): return SAngle(self.c, self.s, "deg", self.prov)
+    def rad2deg(self): return SAngle(self.c, self.s, "deg", self.prov)._carry(self._v, self)
     degrees = rad2deg
     def conjugate(self): return self
     @property
